@@ -13,6 +13,9 @@ decrypts, which address-derived value enters the cipher, what the ROM must find 
        and ROM models, AES block function of `cryptography` only) loads the EXPORTED key blobs and reads the EXPORTED image cell by
        cell, logging per cell the context it selected, the cipher input and whether its output equals the plaintext.
  TV  : TLC (FlashEncTrace) recomputes every logged number from the case and demands ok = TRUE for every cell, every cut, every blob.
+ CFG : c13_cfg.py + FlashEncGenCfg.tla - the CONFIGURATION entry points (load_from_config, nxpimage bee|otfad|iee export): TLC enumerates what a
+       description may hold several of (regions, BEE engines, bee_engine entries, generated / binary headers, equal / different keys, data
+       blobs); every shape is run through the dictionary route and the file route and judged by the same models and the same trace spec.
  HIST: c13_hist.py + FlashEncHist*.tla - the history of ONE object (Export / BinaryImage / ExportKeyBlobs repeated in any order on an
        Otfad / OtfadNxp / BeeNxp / Iee / IeeNxp object): every image equals the first one and is read back as the plaintext, every
        set of key blobs loads as configured.  Histories enumerated by TLC, run on a representative configuration of every engine and mode.
@@ -408,6 +411,10 @@ def material(cc):
     m["kib"] = [(r.randbytes(16), r.randbytes(16)), (r.randbytes(16), r.randbytes(16))]
     m["bnonce"] = [r.randbytes(12) + bytes(4), r.randbytes(12) + bytes(4)]
     m["tamper"] = r.getrandbits(32)
+    if "cfg" in cc:  # configuration lane: "the same key in every key blob / in both engines" is a dimension of the case
+        import c13_cfg
+
+        c13_cfg.same_keys(cc, m)
     return m
 
 
@@ -467,15 +474,29 @@ def exec_otfad(cc, m):
 
     scr = cc["scr"]
     kbswap, rev = cc["kbswap"], bool(scr and scr[2])
-    if cc["api"] == "nxp":
+    cfg_build = None
+    if cc["api"] in ("nxp", "cfg"):
         db = get_db(cc["family"], "latest")
         kbswap = db.get_int("otfad", "keyblob_byte_swap_cnt")
         rev = db.get_bool("otfad", "reversed_scramble_key", False)
         if not db.get_bool("otfad", "supports_key_scrambling", False):
             scr = None
         table_address = origin - 0x1000
+        if cc["api"] == "cfg":  # SPSDK builds the object itself from a description (dictionary or file + nxpimage function)
+            import c13_cfg
+
+            cfg_build = c13_cfg.otfad(cc, m, kek, scr, table_address, base)
+
+        def pieces(cut=None):
+            return [(base, plain)] if cut is None else [(base, plain[:cut]), (base + cut, plain[cut:])]
 
         def build():
+            if cfg_build:
+                cut = cc["cfg"]["cut"]
+                flash = cfg_build(pieces(None if cut is None else cut * C - (cc["base"] * C + cc["sub"])))
+                if flash is None:
+                    raise FileNotFoundError("no whole image was written")
+                return flash[:256], flash[base - table_address: base - table_address + len(plain) + (-len(plain) % 16)]
             start = min([base] + [addr_range(cc, g)[0] for g in cc["regs"]])
             bins = BinaryImage("encrypted_blobs", offset=start - table_address)
             bins.add_image(BinaryImage("data", offset=base - start, binary=plain))
@@ -531,6 +552,8 @@ def exec_otfad(cc, m):
             return o.encrypt_image(p, b, cc.get("swap", False))
 
         def joint(cut):
+            if cfg_build:
+                return cfg_build(pieces(cut), "p")[base - table_address:]
             start = min([base] + [addr_range(cc, g)[0] for g in cc["regs"]])
             bins = BinaryImage("encrypted_blobs", offset=start - table_address)
             bins.add_image(BinaryImage("data0", offset=base - start, binary=plain[:cut]))
@@ -539,7 +562,10 @@ def exec_otfad(cc, m):
                           key_scramble_align=scr[1] if scr else None, binaries=bins)
             return nx.binary_image().export()[base - table_address:]
 
-        traces.update(all_local(cc, plain, out, enc, joint if cc["api"] == "nxp" else None))
+        if cfg_build:
+            traces["loc"] = local_events(cc, plain, out, enc, None, joint)
+        else:
+            traces.update(all_local(cc, plain, out, enc, joint if cc["api"] == "nxp" else None))
     elif out is None:
         traces["img"] = err
     return traces
@@ -549,8 +575,10 @@ def bee_locks(m):
     return {e: (m["tamper"] >> (4 * e)) & 0xF for e in (0, 1)}
 
 
-def bee_blob_events(cc, m, hdrs, locks, tamper=False):
-    """The ROM model loads the exported BEE region headers -> (one Blob event per FAC region, the two engines)."""
+def bee_blob_events(cc, m, hdrs, locks, tamper=False, nonces=None):
+    """The ROM model loads the exported BEE region headers -> (one Blob event per FAC region, the two engines).
+    nonces[e] = None: the header of engine e is generated from a description and SPSDK draws its nonce (any nonce of the format: low word zero)."""
+    nonces = nonces or m["bnonce"]
     engines = sorted({g["engine"] for g in cc["regs"]})
     evs, j, engs = [], 0, [None, None]
     for e in (0, 1):
@@ -571,7 +599,7 @@ def bee_blob_events(cc, m, hdrs, locks, tamper=False):
             j += 1
             g = mine[k] if k < len(mine) else None
             evs.append({"e": "Blob", "j": j, "authOk": h["tagOk"], "crcOk": True, "lo": limbs(s), "hi": limbs((en - 1) & 0xFFFFFFFF), "vld": True, "ade": True,
-                        "keyOk": True, "ctrOk": h["nonce"] == m["bnonce"][e], "attrOk": bool(common and g is not None and lvl == g["level"])})
+                        "keyOk": True, "ctrOk": (h["nonce"] == nonces[e]) if nonces[e] is not None else (len(h["nonce"]) == 16 and h["nonce"][12:] == bytes(4)), "attrOk": bool(common and g is not None and lvl == g["level"])})
     return evs, engs
 
 
@@ -596,12 +624,24 @@ def exec_bee(cc, m):
             hs[e] = h
         return hs
 
-    out, err = guarded(lambda: BeeNxp(headers(), plain, base).export_image())
-    hdrs, kberr = guarded(lambda: BeeNxp(headers(), plain, base).export_headers())
+    nonces, enc = None, lambda p, b: BeeNxp(headers(), p, b).export_image()
+    if cc["api"] == "cfg":  # SPSDK builds the headers itself from a description: ONE run delivers the image and the headers
+        import c13_cfg
+
+        export, locks, nonces, deterministic = c13_cfg.bee(cc, m)
+        res, err = guarded(lambda: export(plain, base))
+        out, hdrs = res if res else (None, None)
+        kberr = err
+        if out is None and err is None:
+            err = [{"e": "Refused", "exc": "no file", "msg": "no encrypted image was written"}]
+        enc = (lambda p, b: export(p, b, "p")[0]) if deterministic else None  # generated headers carry a fresh nonce in every run: no two runs compare
+    else:
+        out, err = guarded(lambda: BeeNxp(headers(), plain, base).export_image())
+        hdrs, kberr = guarded(lambda: BeeNxp(headers(), plain, base).export_headers())
     traces = {}
     engs = [None, None]
     if hdrs is not None:
-        evs, engs = bee_blob_events(cc, m, hdrs, locks, bool(cc.get("tamper")))
+        evs, engs = bee_blob_events(cc, m, hdrs, locks, bool(cc.get("tamper")), nonces)
         evs.append({"e": "EndLoad", "n": sum(1 for x in evs if x["e"] == "Blob")})
         traces["kb"] = evs
     else:
@@ -613,11 +653,17 @@ def exec_bee(cc, m):
             e, k, inp, data = hw.bee_read(engs, a, cb)
             if not e:
                 return 0, False, [0, 0], data
-            idx = [i for i, g in enumerate(cc["regs"], start=1) if g["engine"] == e - 1][k - 1]
-            return idx, True, [inp, 0], data
+            mine = [i for i, g in enumerate(cc["regs"], start=1) if g["engine"] == e - 1]
+            if k > len(mine):  # the header lists a FAC region that is not configured for its engine: a context no case has
+                return -1, True, [inp, 0], data
+            return mine[k - 1], True, [inp, 0], data
 
         traces["img"] = cell_events(cc, plain, out, read)
-        traces.update(all_local(cc, plain, out, lambda p, b: BeeNxp(headers(), p, b).export_image()))
+        if cc["api"] == "cfg":
+            if enc is not None:
+                traces["loc"] = local_events(cc, plain, out, enc)
+        else:
+            traces.update(all_local(cc, plain, out, enc))
     elif out is None:
         traces["img"] = err
     return traces
@@ -702,7 +748,28 @@ def exec_iee(cc, m):
         """The key blob's own entry point: data that lie inside its range, any number of units in one call."""
         return blobs()[cc["blobreg"]].encrypt_image(b, p)
 
-    if cc["api"] == "nxp":
+    cfg_build = None
+    ele = bool(cc.get("cfg", {}).get("ele"))  # `key_blob` families: no key-blob page, the engine holds the configured values
+
+    def pieces(cut=None):
+        return [(base, plain)] if cut is None else [(base, plain[:cut]), (base + cut, plain[cut:])]
+
+    if cc["api"] == "cfg":  # SPSDK builds the object itself from a description (dictionary or file + nxpimage function)
+        import c13_cfg
+
+        cfg_build = c13_cfg.iee(cc, m, kba)
+
+        def build():
+            cut = cc["cfg"]["cut"]
+            flash = cfg_build(pieces(None if cut is None else cut * C - cc["base"] * C))
+            if flash is None:
+                raise FileNotFoundError("no whole image was written")
+            return (None if ele else flash[:384]), flash[base - kba: base - kba + len(plain) + (-len(plain) % 16)]
+
+        res, err = guarded(build)
+        table, out = res if res else (None, None)
+        kberr = err
+    elif cc["api"] == "nxp":
         def build():
             start = min([base] + [addr_range(cc, g)[0] for g in cc["regs"]])
             bins = BinaryImage("encrypted_blobs", offset=start - kba, alignment=16)
@@ -733,14 +800,18 @@ def exec_iee(cc, m):
         evs, regions = iee_blob_events(cc, m, tab, kba, len(table))
         evs.append({"e": "EndLoad", "n": len(evs)})
         traces["kb"] = evs
+    elif ele and kberr is None:
+        regions = c13_cfg.iee_configured_regions(cc, m)
     else:
         traces["kb"] = kberr
     if cc.get("tamper"):
         return {"kb": traces["kb"]}
-    if out is not None and table is not None:
+    if out is not None and (table is not None or ele):
         traces["img"] = cell_events(cc, plain, out, iee_reader(regions))
 
         def joint(cut):
+            if cfg_build:
+                return cfg_build(pieces(cut), "p")[base - kba:]
             start = min([base] + [addr_range(cc, g)[0] for g in cc["regs"]])
             bins = BinaryImage("encrypted_blobs", offset=start - kba, alignment=16)
             bins.add_image(BinaryImage("data0", offset=base - start, binary=plain[:cut], alignment=16))
@@ -748,7 +819,10 @@ def exec_iee(cc, m):
             nx = IeeNxp(cc["family"], kba, m["ibkek1"], m["ibkek2"], key_blobs=blobs(), binaries=bins)
             return nx.binary_image().export()[base - kba:]
 
-        traces.update(all_local(cc, plain, out, own if cc["api"] == "blob" else low, joint if cc["api"] == "nxp" else None))
+        if cfg_build:
+            traces["loc"] = local_events(cc, plain, out, low, None, joint)
+        else:
+            traces.update(all_local(cc, plain, out, own if cc["api"] == "blob" else low, joint if cc["api"] == "nxp" else None))
         if cc["api"] == "blob" and cc["regs"][cc["blobreg"]]["m"][1] == "AesCTRWAddress":
             traces["drift"] = subunit_drift(cc, plain, out, own, base)
     elif out is None:
@@ -982,14 +1056,17 @@ def run(tier):
     import spsdk.image.bee  # noqa: F401  (imported before the workers fork)
     import spsdk.utils.crypto.iee  # noqa: F401
     import spsdk.utils.crypto.otfad  # noqa: F401
+    import spsdk.apps.nxpimage  # noqa: F401  (configuration lane, route "cli")
     from spsdk.utils.database import get_db
+
+    import c13_cfg
 
     v = Verdict(PROP, tier)
     r = rng(PROP)
     quick = tier == "quick"
     n_anch = selftest()
     v.extra["anchors"] = f"{n_anch} golden artefacts (NXP image_enc outputs, key blobs, BEE headers) reproduced by the engine model"
-    for f in set(OTFAD_FAMILIES + IEE_FAMILIES):
+    for f in set(OTFAD_FAMILIES + IEE_FAMILIES + c13_cfg.OTFAD_CFG_FAMILIES + c13_cfg.IEE_CFG_FAMILIES + [c13_cfg.IEE_ELE_FAMILY]):
         get_db(f, "latest")
     scratch()  # created in the main thread
 
@@ -1006,11 +1083,19 @@ def run(tier):
         import c13_hist
 
         pred["history/in-place-export/repeated-image"] = c13_hist.predict()
+        # configuration lane: description of two engines -> region headers; the builder's loop with a block per turn holds, with ONE block for both turns it is refuted
+        cm = tlc.mc("C13", "FlashEncCfgMC", "FlashEncCfgMC.cfg", require_actions=("Turn", "Done"), workers=1, timeout=300)
+        p = tlc.run("C13", "FlashEncCfgMC", "FlashEncCfgPredict.cfg", workers=1, timeout=300)
+        if p.violated != "HeadersAsConfigured":
+            raise Machinery(f"prediction run FlashEncCfgPredict.cfg: expected HeadersAsConfigured to be violated, got {p.violated}")
+        pred["configuration/one-block-for-both-engines/union-of-regions"] = f"HeadersAsConfigured violated after {p.generated} states ({cm.distinct} states of the per-turn design pass)"
         return mc, pred
 
     bg = Background(model_checking)
     time.sleep(0.5)  # lib.tlc numbers its scratch directories with a plain counter: never start two runs in the same instant
     bgw = Background(lambda: tlc.run("C13", "FlashEncGenWrap", "FlashEncGenWrap.cfg", workers=1, heap="4g", timeout=900))
+    time.sleep(0.5)
+    bgc = Background(lambda: tlc.run("C13", "FlashEncGenCfg", "FlashEncGenCfg.cfg", workers=1, heap="4g", timeout=900))
     time.sleep(0.5)
     canary(v)
     import c13_hist as hist  # (imports this module)
@@ -1047,15 +1132,34 @@ def run(tier):
         s = random_struct(r, r.choice([16, 24, 32]), 4)
         for eng in ("otfad", "bee", "iee"):
             cases += concretise(eng, s, r.randrange(1000), r, tier, sampled=True)
+    n_obj = len(cases)
+    # ---- configuration lane: SPSDK builds the objects itself from a description (load_from_config / the nxpimage export functions);
+    #      the shapes - what a description may hold several of - are enumerated by TLC (FlashEncGenCfg)
+    gc = bgc.result()
+    shapes = gc.json_prints()
+    if len(shapes) != gc.distinct or len(shapes) < 3000 or not gc.no_error:
+        raise Machinery(f"GEN (configurations) emitted {len(shapes)} shapes for {gc.distinct} states: {gc.errors[:2]}")
+    in_class, in_eng = {}, {}
+    for s in shapes:
+        cls = c13_cfg.shape_class(s)
+        k = in_class[cls] = in_class.get(cls, -1) + 1
+        if quick and k % c13_cfg.QUICK_EVERY[s["eng"]]:
+            continue  # quick tier: every n-th shape of every class, so every class is reached
+        j = in_eng[s["eng"]] = in_eng.get(s["eng"], -1) + 1
+        cases += c13_cfg.concretise_cfg(s, j, r, tier)
+    n_cfg = len(cases) - n_obj
+    reached = {(c["cfg"]["sel"], tuple(c["cfg"]["kinds"]), c["cfg"]["keyrel"]) for c in cases[n_obj:] if c["eng"] == "bee"}
+    if reached != {(s["sel"], tuple(s["kinds"]), s["keyrel"]) for s in shapes if s["eng"] == "bee"} or len(reached) < 28:
+        raise Machinery(f"configuration lane: only {len(reached)} BEE classes (selection x entry kinds x key relation) reached")
     for i, cc in enumerate(cases):
         cc["id"] = f"c{i}"
     # ---- tamper lane: one flipped bit in an exported key blob must not load as the configured context
     tamper = []
-    for cc in r.sample([c for c in cases if c["eng"] != "bee"], 60 if quick else 1500):  # BEE headers carry no integrity field
+    for cc in r.sample([c for c in cases[:n_obj] if c["eng"] != "bee"], 60 if quick else 1500):  # BEE headers carry no integrity field
         t = dict(cc)
         t["id"], t["tamper"] = cc["id"] + "t", True
         tamper.append(t)
-    say(f"[C13] GEN done {v.timer.s()}s: {len(structs)} + {len(wstructs)} (counter wrap) structural cases -> {n_main} + {n_wrap} concrete + {len(cases) - n_gen} sampled + {len(tamper)} tamper")
+    say(f"[C13] GEN done {v.timer.s()}s: {len(structs)} + {len(wstructs)} (counter wrap) structural cases -> {n_main} + {n_wrap} concrete + {n_obj - n_gen} sampled + {n_cfg} from {len(shapes)} configuration shapes + {len(tamper)} tamper")
 
     by_id = {cc["id"]: cc for cc in cases + tamper}
     n_traces, block = 0, 25000
@@ -1083,6 +1187,10 @@ def run(tier):
     v.add_mc(mc)
     v.add_mc(g)
     v.add_mc(gw)
+    v.add_mc(gc)
+    v.extra["configuration_lane"] = {"shapes": len(shapes), "cases": n_cfg,
+                                     "routes": {rt: sum(1 for c in cases[n_obj:] if c["cfg"]["route"] == rt) for rt in ("dict", "cli")},
+                                     "bee_classes": len(reached)}
     v.extra["ispec_predictions"] = pred
     v.extra["drift_iee_ctr_subunit_cuts"] = dict(drift, note="NOT asserted (IEE data addresses are 4 KiB aligned in the property): whole vs pieces for cuts INSIDE a page "
                                                  "through IeeKeyBlob.encrypt_image in AES-CTR mode, incl. the cuts around the counter wrap; `differ` > 0 means the ciphertext "
@@ -1104,9 +1212,14 @@ def run(tier):
         f"(IeeKeyBlob.encrypt_image when the image lies in the region, Iee.encrypt_image / IeeNxp in rotation), all unit-aligned cuts "
         f"({'one block position per structural case in rotation' if quick else 'all seven block positions'}); "
         "a case is non-trivial if the image is not empty, SPSDK exported something and the engine model read at least one cell of it; distinct by (engine, mode, API, base, offset, length, regions)"
+        f" + the configuration lane: the {len(shapes)} shapes TLC enumerates (FlashEncGenCfg: 1..4 unit-aligned disjoint regions in a window of 16 cells; BEE: the engine of every "
+        "region, engine_selection, one or two bee_engine entries incl. an entry no engine is selected for, generated / binary header per entry, equal / different user keys; "
+        "OTFAD / IEE: decrypting / bypassing / invalid key blobs, equal / different keys, the image as one or two adjacent data blobs) run through check_config + load_from_config or "
+        "through a JSON / YAML file + nxpimage bee_export / otfad_export / iee_export (place of the image, byte tail, route, family, spelling of the values in rotation) and judged by "
+        f"the same ROM / engine models and FlashEncTrace ({'every n-th shape of every class: ' + str(c13_cfg.QUICK_EVERY) if quick else 'all shapes'})"
         " + " + hist.rule(tier))
     v.cov["exhaustive"] = not quick  # quick: flag variants and three-region placements 1 in 3, one tail / offset per structural case
-    v.cov["checker_cmd"] = ("TLC FlashEncMC (lemmas + I-spec) ; TLC FlashEncGen + FlashEncGenWrap (case spaces) ; TLC FlashEncTrace (decides every trace) ; "
+    v.cov["checker_cmd"] = ("TLC FlashEncMC (lemmas + I-spec) ; TLC FlashEncCfgMC (description -> region headers: I-spec designs) ; TLC FlashEncGen + FlashEncGenWrap + FlashEncGenCfg (case spaces) ; TLC FlashEncTrace (decides every trace) ; "
                             "TLC FlashEncHistMC (histories of one object: lemmas, I-spec variants, GEN) ; TLC FlashEncHistTrace (decides every history)")
     v.cov["trusted_base"] = ["AES block function of `cryptography` (ECB, one block at a time)", "c13_hw.py: CTR counter blocks, XTS tweak chain, RFC 3394 unwrap, CBC, CRC-32/MPEG-2 in pure Python",
                              "anchors/C13: NXP image_enc artefacts + published vectors (RFC 3394 4.1, IEEE 1619 vector 2, CRC check value) reproduced at the start of every run", "TLC 2 (tla2tools.jar)"]
@@ -1127,6 +1240,13 @@ def run(tier):
         "OTFAD data byte swap is driven through Otfad.encrypt_image; OtfadNxp.binary_image never swaps (family mimxrt685s, whose database entry asks for it, is not in the NXP-level lane)",
         "hardware parameters per family (key-blob byte-swap count, reversed scramble mask, scrambling support) are read from the device database",
         "BEE: a fetch is decrypted iff it lies in a FAC region of an engine; the data key is the engine's user key",
+        "configuration lane: a BEE header generated from a description carries a nonce and a KIB SPSDK draws itself - any nonce of the format (low word zero) is accepted, lock options 0; "
+        "whole = pieces is asserted for BEE only where every selected engine is described by a binary header (two runs with generated headers cannot be compared); "
+        "engine_key_selection is not interpreted by SPSDK and not asserted; binary headers are made by the harness from the format alone",
+        "configuration lane: values are spelled as in the templates (keys as 0x-prefixed hexadecimal strings, addresses as hexadecimal strings or numbers, KEK as string or binary file); "
+        "`key_blob` families (mimxrt1189: no key-blob page is generated) are read by an engine model that holds the CONFIGURED values; "
+        "OTFAD / IEE data blobs are handed over as plain binary files whose last byte is >= 0x80 (a file of one or two white-space characters is taken for an empty text file by "
+        "the loader's format detection - not asserted, format detection is outside the property)",
     ]
     return v.finish()
 
